@@ -83,6 +83,16 @@ pub fn check<D: OutNeighbors + Vertices + Clone>(d: &D, other: &D, m: &Model, o:
     let mut c = t.clone();
     let cloned: Vec<BTreeSet<usize>> = c.components().clone();
     o.check(cloned == comps, "components-differ-on-a-clone", || crate::ctx::clip(&format!("first {comps:?} clone {cloned:?}")));
+    if m.n() <= 300 {
+        // a third and a fourth call; `c` is by now a used clone of a used object
+        for nth in 3..=4 {
+            let later: Vec<BTreeSet<usize>> = t.components().clone();
+            o.check(later == comps, "components-differ-on-a-later-call", || crate::ctx::clip(&format!("first {comps:?} call {nth}: {later:?}")));
+        }
+        let mut cc = c.clone();
+        let via_used: Vec<BTreeSet<usize>> = cc.components().clone();
+        o.check(via_used == comps, "components-differ-on-a-clone-of-a-used-object", || crate::ctx::clip(&format!("first {comps:?} clone of used {via_used:?}")));
+    }
 }
 
 pub fn case(idx: u64, seed: u64, p: &Params, o: &mut CaseOut) {
